@@ -6,7 +6,11 @@
 
 static unsigned countdown, refused, seen;
 
-static int refuse(void)
+int vp_fault_tick(void);
+static int refuse(void) { return vp_fault_tick(); }
+
+/* one allocation of the code under test (malloc family, or a memory area of the counting umem manager): refused? */
+int vp_fault_tick(void)
 {
     seen++;
     if (countdown && --countdown == 0) { refused++; return 1; }
